@@ -87,4 +87,33 @@ def build(module):
             MODULE + ':Parser.parse', params={'self': ParserSelf(tr), 'text': Str, 'debug': B},
             ensures=["passed('tracking', %r)" % tr, "passed('debug', debug)", "passed('lexer', self.lexer)", "passed('text', text)"],
             env={'passed': Helper(same2)}, notes='yacc_tracking=%s' % tr))
+    # Lexer.input: the text reaches ply's lexer unchanged, once
+    lexmod = __import__('importlib').import_module('calmjs.parse.lexers.es5')
+    rec3 = {}
+
+    class LexerSelf(object):
+        def make(self, name):
+            rec3.clear()
+            rec3['calls'] = 0
+            o = PObj(lexmod.Lexer, name='self')
+            inner = PObj(object, name='plylexer')
+
+            def inp(e, a, k):
+                rec3['calls'] += 1
+                rec3['text'] = a[0]
+            inner.fields['input'] = PExt('ply.lex.Lexer.input', inp)
+            o.fields['lexer'] = inner
+            return o
+
+    def same3(eng, value):
+        got = rec3.get('text', '<missing>')
+        if got is value:
+            return True
+        try:
+            return eng.compare(__import__('ast').Eq(), got, value)
+        except Exception:
+            return False
+    cs.append(Contract('calmjs.parse.lexers.es5:Lexer.input', params={'self': LexerSelf(), 'text': Str},
+                       ensures=['lexed(text)', 'input_calls() == 1'],
+                       env={'lexed': Helper(same3), 'input_calls': Helper(lambda e: rec3['calls'])}))
     return cs, [], env
